@@ -181,23 +181,14 @@ Fixpoint preds_acc (s : sent) (l : list pred) : list pred :=
   end.
 Definition preds_of (s : sent) : list pred := preds_acc s [].
 
-(* variables bound somewhere inside s *)
-Fixpoint binds (v : nat) (s : sent) : bool :=
-  match s with
-  | SAtom _ | SPred _ _ => false
-  | SQuant _ u b => Nat.eqb u v || binds v b
-  | SUn _ a => binds v a
-  | SBin _ a b => binds v a || binds v b
-  | SMod _ a => binds v a
-  end.
-
-(* no quantifier rebinds a variable that an enclosing quantifier of the same
-   sentence already binds *)
-Fixpoint norebind (s : sent) : bool :=
+(* no quantifier rebinds a variable that an enclosing quantifier (or the
+   context [bound]) already binds *)
+Fixpoint nb (bound : list nat) (s : sent) : bool :=
   match s with
   | SAtom _ | SPred _ _ => true
-  | SQuant _ u b => negb (binds u b) && norebind b
-  | SUn _ a => norebind a
-  | SBin _ a b => norebind a && norebind b
-  | SMod _ a => norebind a
+  | SQuant _ u b => negb (existsb (Nat.eqb u) bound) && nb (u :: bound) b
+  | SUn _ a => nb bound a
+  | SBin _ a b => nb bound a && nb bound b
+  | SMod _ a => nb bound a
   end.
+Definition norebind (s : sent) : bool := nb [] s.
